@@ -580,6 +580,63 @@ def _transport_events(chk, n, seed):
     return events
 
 
+def _xport_events(chk, n, seed):
+    """A script that RESUMES a program which reads input: through --command (program input alone on stdin) and through stdin, where each byte
+    the program reads sits right behind the command during which it is read (the reader must not read ahead). Both runs must look the same."""
+    import random
+    rnd = random.Random(seed * 31 + 5)
+    d = _wpath("c14_xport")
+    os.makedirs(d, exist_ok=True)
+    # (source, instruction index -> reads one input byte)
+    progs = [("getc\nout\ngetc\nout\nhalt\n", {0, 2}),
+             ("getc\ngetc\nout\nadd r1 r0 #0\ngetc\nout\nhalt\n", {0, 1, 4}),
+             ("add r2 r2 #1\ngetc\nout\nhalt\n", {1})]
+    events = []
+    for k in range(n):
+        src, reads = progs[k % len(progs)]
+        path = os.path.join(d, "x%d.asm" % (k % len(progs)))
+        open(path, "w").write(src)
+        ninstr = src.count("\n")
+        inputs = [rnd.choice("ABxyz09") for _ in reads]
+        # commands: stepping (knows how many instructions it executes) and inspection, then registers and quit
+        cmds, at = [], 0
+        while at < ninstr - 1 and len(cmds) < 8:
+            c = rnd.choice(["step", "s", "step into 2", "si 3", "r", "p r0", "echo hi", "step into"])
+            adv = {"step": 1, "s": 1, "step into": 1, "step into 2": 2, "si 3": 3}.get(c, 0)
+            adv = min(adv, ninstr - 1 - at)          # stepping stops at HALT
+            cmds.append((c, [i for i in range(at, at + adv) if i in reads]))
+            at += adv
+        tail = rnd.choice([["registers", "quit"], ["r", "q"], ["registers"], []])
+        it = iter(inputs)
+        given = {}
+        for c, rd in cmds:
+            for i in rd:
+                given[i] = next(it)
+        rest = [b for b in it]                      # read after the session has detached (quit / end of input)
+        # through --command
+        script_arg = ";".join(c for c, _ in cmds) + "".join(";" + t for t in tail)
+        if not tail or tail[-1] not in ("quit", "q"):
+            script_arg += ";quit"                    # (with --command the reader would otherwise go on to stdin)
+        a = vlib.run_lace(["debug", "--minimal", path, "--command", script_arg], stdin="".join(inputs).encode())
+        # through stdin, inputs interleaved
+        term = rnd.choice(["\n", ";", "\n", "\r\n"])
+        stream = ""
+        for c, rd in cmds:
+            stream += c + (term if term != "\r\n" or not rd else "\n") + "".join(given[i] for i in rd)
+        for t in tail:
+            stream += t + "\n"
+        if not tail or tail[-1] not in ("quit", "q"):
+            stream += "quit\n"
+        stream += "".join(rest)
+        b = vlib.run_lace(["debug", "--minimal", path], stdin=stream.encode())
+
+        def view(r):
+            regs = [x for x in r[2].decode("utf-8", "replace").split("\n") if len(x) > 3 and x[0] == "R" and x[1].isdigit()]
+            return [r[0], _norm_out(r[1], [path]).replace("\n", ""), regs]
+        events.append({"ev": "xport", "tag": "x%d" % k, "arg": view(a), "stdin": view(b), "script": stream, "src": src})
+    return events
+
+
 def check_C14(replay=None):
     chk = Check("C14")
     chk.rule = ("case = command line; tokens: EVERY string up to a bounded length over {+ - # x o b 0 1 7 9 a f g ^ r _} as the argument of `move r1 T`, `goto T`, `print T` "
@@ -623,6 +680,7 @@ def check_C14(replay=None):
         os.remove(out)
     # transports
     tev = _transport_events(chk, 60 * SCALE if thorough else 12, chk.seed)
+    tev += _xport_events(chk, 30 * SCALE if thorough else 12, chk.seed)
     tpath = _wpath("c14_transport.ndjson")
     with open(tpath, "w") as f:
         for e in tev:
@@ -631,6 +689,9 @@ def check_C14(replay=None):
     chk.add_trace(res, len(tev))
     for i in sorted(res["bad"]):
         e = tev[i - 1]
+        if e["ev"] == "xport":
+            chk.violation("transport:program-input", "script %r: --command run %r, stdin run %r" % (e["script"], e["arg"], e["stdin"]), {"family": "cli", "events": [e]})
+            continue
         chk.violation("transport", "script %r split at %d: echoed %r" % (e["script"], e["cut"], e["lines"]), {"family": "cli", "events": [e]})
     chk.samples.append(tev[len(tev) // 2])
     chk.evaluations = ncmd + len(tev)
@@ -1173,8 +1234,14 @@ def check_C20(replay=None):
     def gen(job):
         name, args = job
         out = _wpath("c20_%s.ndjson" % name)
-        summ = harness(args + ["--out", out])
+        if name == "pty":
+            summ = _c20_pty_cases(chk, out, 40 * SCALE if thorough else 14)
+        else:
+            summ = harness(args + ["--out", out])
         return out, summ, tlc_trace("Trace_Editor", out, timeout=2400)
+    # the same editor through the REAL terminal path: keys typed into a pty (one at a time and in bursts), history file compared at the end
+    vlib.build(need_cli=True)
+    jobs.append(("pty", []))
     for out, summ, res in parallel(gen, jobs, 8):
         chk.add_trace(res, summ.get("cases", 0))
         chk.evaluations += summ.get("cases", 0)
@@ -1192,13 +1259,79 @@ def check_C20(replay=None):
                     if j == i:
                         break
             ev = evs[-1]
-            key = "panic:" + ev.get("msg", "").split(" @ ")[0][:50] if ev["ev"] == "end" and ev.get("kind") == "panic" else "%s:%s" % (ev["ev"], (ev.get("key") or {}).get("k", ""))
+            if ev["ev"] == "end" and ev.get("kind") == "pty":
+                key = "pty:" + ("panic" if ev.get("panicked") else "history") + ":" + evs[0].get("mode", "")
+            else:
+                key = "panic:" + ev.get("msg", "").split(" @ ")[0][:50] if ev["ev"] == "end" and ev.get("kind") == "panic" else "%s:%s" % (ev["ev"], (ev.get("key") or {}).get("k", ""))
             chk.violation(key, "editor event not explained by Editor.tla: %s" % json.dumps(ev)[:300], {"family": "edit", "events": evs})
         if not chk.samples:
             chk.samples = vlib.sample_lines(out, 4)
         os.remove(out)
     chk.distinct = max(chk.distinct, 2)
     return chk.finish()
+
+
+def _c20_pty_cases(chk, out, n):
+    """Seeded key sequences typed into `lace debug` on a pseudo terminal. Lines are made of characters that can only form harmless commands."""
+    import random
+    import ptydrive
+    rnd = random.Random(chk.seed * 7919 + 13)
+    d = _wpath("c20_pty")
+    _shutil.rmtree(d, ignore_errors=True)
+    os.makedirs(d)
+    asm = os.path.join(d, "p.asm")
+    open(asm, "w").write(".orig x3000\nloop add r0 r0 #1\nbrnzp loop\nhalt\n")
+    alphabet = ["a", "b", "\u00e9", "Z", "9", " ", "+", "\U0001F600", ".", "\u2713", "\u00a0"]      # no ';' (it would split the line into commands)
+    edit = ["backspace", "delete", "left", "right", "ctrlleft", "ctrlright", "up", "down", "enter"]
+
+    def chars(s):
+        return list(s)
+
+    def rand_line():
+        return "".join(rnd.choice(alphabet[:5] + [" ", "+"]) for _ in range(rnd.randint(1, 5))).strip() or "a"
+    cases = []
+    for i in range(n):
+        hist = [rand_line() for _ in range(rnd.choice([0, 0, 1, 2, 3]))]
+        hist = [h for j, h in enumerate(hist) if j == 0 or h != hist[j - 1]]
+        keys = []
+        for _ in range(rnd.randint(3, 12)):
+            if rnd.random() < 0.5:
+                keys.append({"k": "char", "c": rnd.choice(alphabet)})
+            else:
+                keys.append({"k": rnd.choice(edit), "c": ""})
+        keys.append({"k": "enter", "c": ""})
+        cases.append((hist, keys, "burst" if i % 2 else "single"))
+    # type-ahead: several lines in one burst; a history file longer than any cap one might think of
+    cases.append(([], [{"k": "char", "c": c} for c in "ab"] + [{"k": "enter", "c": ""}] + [{"k": "char", "c": c} for c in "Z9"] + [{"k": "enter", "c": ""}], "burst"))
+    big = []
+    for i in range(1203):
+        x, sdig = i, ""
+        for _ in range(6):
+            sdig = "abZ9"[x % 4] + sdig
+            x //= 4
+        big.append(sdig)
+    cases.append((big, [{"k": "up", "c": ""}, {"k": "up", "c": ""}, {"k": "char", "c": "b"}, {"k": "enter", "c": ""}], "single"))
+
+    def run(job):
+        i, (hist, keys, mode) = job
+        r = ptydrive.editor_session(vlib.LACE_BIN, asm, os.path.join(d, "cache%d" % i), hist, keys, mode)
+        if not r["prompt_seen"]:
+            # no prompt at all: retry once before believing it (a loaded machine)
+            r = ptydrive.editor_session(vlib.LACE_BIN, asm, os.path.join(d, "cache%d" % i), hist, keys, mode)
+        evs = [{"ev": "init", "hist": [chars(h) for h in hist], "mode": mode}]
+        for k in keys:
+            evs.append({"ev": "bkey", "key": k})
+            if k["k"] == "enter":
+                evs.append({"ev": "bdrain"})
+        evs.append({"ev": "end", "kind": "pty", "history": [chars(h) for h in r["history"]] if r["history"] is not None else [["?"]],
+                    "panicked": r["panicked"], "prompt_seen": r["prompt_seen"], "transcript": r["transcript"][-300:]})
+        return evs
+    with open(out, "w") as f:
+        for evs in parallel(run, list(enumerate(cases)), 6):
+            for e in evs:
+                f.write(json.dumps(e) + "\n")
+    _shutil.rmtree(d, ignore_errors=True)
+    return {"cases": len(cases)}
 
 
 # --------------------------------------------------------------------------------------------
